@@ -139,3 +139,18 @@ Theorem C04_src_block_job_reports_failure :
   x_block_job_arms = [("Ok(0)ifoff+done>=harc.metadata.len()", 0); ("Ok(0)", 1); ("Ok(copied)", 2); ("Err(e)", 1)]%string%N.
 Proof. exact x_block_job_arms_ok. Qed.
 Print Assumptions C04_src_block_job_reports_failure.
+
+(* ---- more glue on this property's path, pinned token for token ---- *)
+From XcpPins Require Import Pin_main_expand_globs Pin_main_expand_sources Pin_operations_tree_walker Pin_operations_new.
+Theorem C04_src_pin_main_expand_globs : pin_unchanged name_main_expand_globs.
+Proof. exact pin_main_expand_globs. Qed.
+Theorem C04_src_pin_main_expand_sources : pin_unchanged name_main_expand_sources.
+Proof. exact pin_main_expand_sources. Qed.
+Theorem C04_src_pin_operations_tree_walker : pin_unchanged name_operations_tree_walker.
+Proof. exact pin_operations_tree_walker. Qed.
+Theorem C04_src_pin_operations_new : pin_unchanged name_operations_new.
+Proof. exact pin_operations_new. Qed.
+Print Assumptions C04_src_pin_main_expand_globs.
+Print Assumptions C04_src_pin_main_expand_sources.
+Print Assumptions C04_src_pin_operations_tree_walker.
+Print Assumptions C04_src_pin_operations_new.
